@@ -471,66 +471,85 @@ func sortedU64(m map[uint64][]uint64) []uint64 {
 	return ks
 }
 
-func (wd *World) lmStep(u string) (string, error) {
-	st := wd.St[u]
-	if st.noData || len(st.svBody) < 4 {
-		return wd.kvOrNothing(u)
+// Plan is a prepared well-formed request plus the tracking update to apply when it is acknowledged.
+type Plan struct {
+	Kind  string
+	Desc  string
+	Req   drv.Req
+	Apply func(r drv.Resp)
+}
+
+// Exec sends a plan sequentially and applies it when acknowledged.
+func (wd *World) Exec(p *Plan) (drv.Resp, error) {
+	r, err := wd.do(p.Req.Method, p.Req.URL, p.Req.Body, p.Desc)
+	if err != nil {
+		return r, err
 	}
+	if r.OK() && p.Apply != nil {
+		p.Apply(r)
+	}
+	return r, nil
+}
+
+// PlanMerge merges 1..3 bodies into a target; bodies in `used` are avoided and chosen ones are added to it.
+func (wd *World) PlanMerge(u string, used map[uint64]bool) *Plan {
+	st := wd.St[u]
 	bodies := st.bodies()
-	bl := sortedU64(bodies)
-	base := "/api/node/" + u + "/lm/"
-	at := "@" + wd.short(u)
-	switch x := wd.R.Intn(100); {
-	case x < 35: // merge 1..3 bodies into a target
-		if len(bl) < 3 {
-			return "lm: too few bodies", nil
+	var bl []uint64
+	for _, b := range sortedU64(bodies) {
+		if !used[b] {
+			bl = append(bl, b)
 		}
-		p := wd.R.Perm(len(bl))
-		k := 2 + wd.R.Intn(3)
-		if k > len(bl)-1 {
-			k = len(bl) - 1
-		}
-		var ls []uint64
-		for _, i := range p[:k] {
-			ls = append(ls, bl[i])
-		}
-		jb, _ := json.Marshal(ls)
-		r, err := wd.do("POST", base+"merge", jb, fmt.Sprintf("POST lm/merge %v%s", ls, at))
-		if err != nil {
-			return "lm merge", err
-		}
-		if r.OK() {
+	}
+	if len(bl) < 3 {
+		return nil
+	}
+	p := wd.R.Perm(len(bl))
+	k := 2 + wd.R.Intn(3)
+	if k > len(bl)-1 {
+		k = len(bl) - 1
+	}
+	var ls []uint64
+	for _, i := range p[:k] {
+		ls = append(ls, bl[i])
+		used[bl[i]] = true
+	}
+	jb, _ := json.Marshal(ls)
+	return &Plan{Kind: "merge", Desc: fmt.Sprintf("POST lm/merge %v@%s", ls, wd.short(u)), Req: drv.Req{Method: "POST", URL: "/api/node/" + u + "/lm/merge", Body: jb},
+		Apply: func(r drv.Resp) {
 			for _, b := range ls[1:] {
 				for _, sv := range bodies[b] {
 					st.svBody[sv] = ls[0]
 				}
 			}
 			wd.mutID(r, "merge")
+		}}
+}
+
+// PlanCleave cleaves a proper subset of a multi-supervoxel body.
+func (wd *World) PlanCleave(u string, used map[uint64]bool) *Plan {
+	st := wd.St[u]
+	bodies := st.bodies()
+	var multi []uint64
+	for _, b := range sortedU64(bodies) {
+		if len(bodies[b]) >= 2 && !used[b] {
+			multi = append(multi, b)
 		}
-		return "lm merge", nil
-	case x < 60: // cleave a proper subset of a multi-supervoxel body
-		var multi []uint64
-		for _, b := range bl {
-			if len(bodies[b]) >= 2 {
-				multi = append(multi, b)
-			}
-		}
-		if len(multi) == 0 {
-			return "lm: nothing to cleave", nil
-		}
-		b := multi[wd.R.Intn(len(multi))]
-		svs := bodies[b]
-		k := 1 + wd.R.Intn(len(svs)-1)
-		var cl []uint64
-		for _, i := range wd.R.Perm(len(svs))[:k] {
-			cl = append(cl, svs[i])
-		}
-		jb, _ := json.Marshal(cl)
-		r, err := wd.do("POST", fmt.Sprintf("%scleave/%d", base, b), jb, fmt.Sprintf("POST lm/cleave/%d %v%s", b, cl, at))
-		if err != nil {
-			return "lm cleave", err
-		}
-		if r.OK() {
+	}
+	if len(multi) == 0 {
+		return nil
+	}
+	b := multi[wd.R.Intn(len(multi))]
+	used[b] = true
+	svs := bodies[b]
+	k := 1 + wd.R.Intn(len(svs)-1)
+	var cl []uint64
+	for _, i := range wd.R.Perm(len(svs))[:k] {
+		cl = append(cl, svs[i])
+	}
+	jb, _ := json.Marshal(cl)
+	return &Plan{Kind: "cleave", Desc: fmt.Sprintf("POST lm/cleave/%d %v@%s", b, cl, wd.short(u)), Req: drv.Req{Method: "POST", URL: fmt.Sprintf("/api/node/%s/lm/cleave/%d", u, b), Body: jb},
+		Apply: func(r drv.Resp) {
 			var o struct{ CleavedLabel, MutationID uint64 }
 			json.Unmarshal(r.Body, &o)
 			for _, sv := range cl {
@@ -539,39 +558,41 @@ func (wd *World) lmStep(u string) (string, error) {
 			wd.allLabels[o.CleavedLabel] = true
 			wd.idEvent("label", o.CleavedLabel, "lm", "cleave")
 			wd.idEvent("mutid", o.MutationID, wd.Root, "cleave")
+		}}
+}
+
+// PlanSplitSV splits a supervoxel (still a box) in two boxes along its longest axis.
+func (wd *World) PlanSplitSV(u string, used map[uint64]bool) *Plan {
+	st := wd.St[u]
+	var cand []uint64
+	for sv, b := range st.svBox {
+		if (b.x1-b.x0 >= 2 || b.y1-b.y0 >= 2 || b.z1-b.z0 >= 2) && !used[st.svBody[sv]] {
+			cand = append(cand, sv)
 		}
-		return "lm cleave", nil
-	case x < 85: // split a supervoxel in two boxes along its longest axis
-		var cand []uint64
-		for sv, b := range st.svBox {
-			if b.x1-b.x0 >= 2 || b.y1-b.y0 >= 2 || b.z1-b.z0 >= 2 {
-				cand = append(cand, sv)
-			}
-		}
-		if len(cand) == 0 {
-			return "lm: nothing to split", nil
-		}
-		sort.Slice(cand, func(i, j int) bool { return cand[i] < cand[j] })
-		sv := cand[wd.R.Intn(len(cand))]
-		b := st.svBox[sv]
-		sp, rem := b, b
-		dx, dy, dz := b.x1-b.x0, b.y1-b.y0, b.z1-b.z0
-		switch {
-		case dx >= dy && dx >= dz:
-			m := b.x0 + dx/2
-			sp.x1, rem.x0 = m, m
-		case dy >= dz:
-			m := b.y0 + dy/2
-			sp.y1, rem.y0 = m, m
-		default:
-			m := b.z0 + dz/2
-			sp.z1, rem.z0 = m, m
-		}
-		r, err := wd.do("POST", fmt.Sprintf("%ssplit-supervoxel/%d", base, sv), rleOf(sp), fmt.Sprintf("POST lm/split-supervoxel/%d box%v%s", sv, sp, at))
-		if err != nil {
-			return "lm split-supervoxel", err
-		}
-		if r.OK() {
+	}
+	if len(cand) == 0 {
+		return nil
+	}
+	sort.Slice(cand, func(i, j int) bool { return cand[i] < cand[j] })
+	sv := cand[wd.R.Intn(len(cand))]
+	used[st.svBody[sv]] = true
+	b := st.svBox[sv]
+	sp, rem := b, b
+	dx, dy, dz := b.x1-b.x0, b.y1-b.y0, b.z1-b.z0
+	switch {
+	case dx >= dy && dx >= dz:
+		m := b.x0 + dx/2
+		sp.x1, rem.x0 = m, m
+	case dy >= dz:
+		m := b.y0 + dy/2
+		sp.y1, rem.y0 = m, m
+	default:
+		m := b.z0 + dz/2
+		sp.z1, rem.z0 = m, m
+	}
+	return &Plan{Kind: "split-supervoxel", Desc: fmt.Sprintf("POST lm/split-supervoxel/%d box%v@%s", sv, sp, wd.short(u)),
+		Req: drv.Req{Method: "POST", URL: fmt.Sprintf("/api/node/%s/lm/split-supervoxel/%d", u, sv), Body: rleOf(sp)},
+		Apply: func(r drv.Resp) {
 			var o struct{ SplitSupervoxel, RemainSupervoxel, MutationID uint64 }
 			json.Unmarshal(r.Body, &o)
 			body := st.svBody[sv]
@@ -583,24 +604,104 @@ func (wd *World) lmStep(u string) (string, error) {
 			wd.idEvent("label", o.SplitSupervoxel, "lm", "split-supervoxel")
 			wd.idEvent("label", o.RemainSupervoxel, "lm", "split-supervoxel")
 			wd.idEvent("mutid", o.MutationID, wd.Root, "split-supervoxel")
-		}
-		return "lm split-supervoxel", nil
-	case x < 93: // nextlabel
-		n := 1 + wd.R.Intn(3)
-		r, err := wd.do("POST", fmt.Sprintf("%snextlabel/%d", base, n), nil, fmt.Sprintf("POST lm/nextlabel/%d%s", n, at))
-		if err != nil {
-			return "lm nextlabel", err
-		}
-		if r.OK() {
+		}}
+}
+
+// PlanNextLabel reserves n labels.
+func (wd *World) PlanNextLabel(u string, n int) *Plan {
+	return &Plan{Kind: "nextlabel", Desc: fmt.Sprintf("POST lm/nextlabel/%d@%s", n, wd.short(u)), Req: drv.Req{Method: "POST", URL: fmt.Sprintf("/api/node/%s/lm/nextlabel/%d", u, n)},
+		Apply: func(r drv.Resp) {
 			var o struct{ Start, End uint64 }
 			json.Unmarshal(r.Body, &o)
 			for l := o.Start; l <= o.End && l < o.Start+16; l++ {
 				wd.idEvent("label", l, "lm", "nextlabel")
 			}
+		}}
+}
+
+// ApplyPar records the outcome of a plan that was sent through Worker.Par.
+func (wd *World) ApplyPar(p *Plan, r drv.Resp) {
+	wd.Seq++
+	if r.Panicked() {
+		wd.Panics = append(wd.Panics, p.Desc+" => "+r.String())
+	} else if r.Status >= 500 {
+		wd.FiveXX = append(wd.FiveXX, p.Desc+" => "+r.String())
+	}
+	wd.note("(par) %s => %d", p.Desc, r.Status)
+	if r.OK() && p.Apply != nil {
+		p.Apply(r)
+	}
+}
+
+// OpenDataNodes lists open versions on which per-type mutations may be issued.
+func (wd *World) OpenDataNodes() []string {
+	var out []string
+	for _, u := range wd.open() {
+		if wd.St[u] != nil && !wd.St[u].noData {
+			out = append(out, u)
 		}
-		return "lm nextlabel", nil
+	}
+	return out
+}
+
+// MaxLabelSeen returns the largest label the workload has ingested or been handed.
+func (wd *World) MaxLabelSeen() uint64 {
+	var m uint64
+	for l := range wd.allLabels {
+		if l > m {
+			m = l
+		}
+	}
+	return m
+}
+
+// IngestBigLabel overwrites one 32^3 block (block coordinate bc inside the 2x2x2 volume) with a new supervoxel label.
+func (wd *World) IngestBigLabel(u string, bc [3]int, label uint64) (drv.Resp, error) {
+	st := wd.St[u]
+	n := 32
+	buf := make([]byte, n*n*n*8)
+	for i := 0; i < n*n*n; i++ {
+		binary.LittleEndian.PutUint64(buf[i*8:], label)
+	}
+	r, err := wd.do("POST", fmt.Sprintf("/api/node/%s/lm/raw/0_1_2/32_32_32/%d_%d_%d?mutate=true", u, bc[0]*32, bc[1]*32, bc[2]*32), buf, fmt.Sprintf("POST lm/raw?mutate=true block%v label %d@%s", bc, label, wd.short(u)))
+	if err != nil || !r.OK() {
+		return r, err
+	}
+	bb := box{bc[0] * 32, bc[1] * 32, bc[2] * 32, bc[0]*32 + 32, bc[1]*32 + 32, bc[2]*32 + 32}
+	for sv, b := range st.svBox {
+		if b.x0 >= bb.x0 && b.x1 <= bb.x1 && b.y0 >= bb.y0 && b.y1 <= bb.y1 && b.z0 >= bb.z0 && b.z1 <= bb.z1 {
+			delete(st.svBox, sv)
+			delete(st.svBody, sv)
+		}
+	}
+	st.svBox[label] = bb
+	st.svBody[label] = label
+	wd.allLabels[label] = true
+	return r, nil
+}
+
+func (wd *World) lmStep(u string) (string, error) {
+	st := wd.St[u]
+	if st.noData || len(st.svBody) < 4 {
+		return wd.kvOrNothing(u)
+	}
+	used := map[uint64]bool{}
+	var p *Plan
+	switch x := wd.R.Intn(100); {
+	case x < 35:
+		p = wd.PlanMerge(u, used)
+	case x < 60:
+		p = wd.PlanCleave(u, used)
+	case x < 85:
+		p = wd.PlanSplitSV(u, used)
+	case x < 93:
+		p = wd.PlanNextLabel(u, 1+wd.R.Intn(3))
 	default: // renumber a body to a label the server hands out
+		bodies := st.bodies()
+		bl := sortedU64(bodies)
 		b := bl[wd.R.Intn(len(bl))]
+		base := "/api/node/" + u + "/lm/"
+		at := "@" + wd.short(u)
 		r, err := wd.do("POST", base+"nextlabel/1", nil, "POST lm/nextlabel/1"+at)
 		if err != nil {
 			return "lm nextlabel", err
@@ -624,6 +725,11 @@ func (wd *World) lmStep(u string) (string, error) {
 		}
 		return "lm renumber", nil
 	}
+	if p == nil {
+		return "lm: nothing applicable", nil
+	}
+	_, err := wd.Exec(p)
+	return "lm " + p.Kind, err
 }
 
 func (wd *World) mutID(r drv.Resp, op string) {
